@@ -22,7 +22,7 @@ RULE = ("Hypothesis-generated solver configurations: molecule (H2 sto-3g/6-31g, 
         "cyclic patterns with exact zeros / multiples of pi/4 / values beyond 2pi) x optional reference override (occupation "
         "vector or circuit), projective circuit, penalty terms, 1-2 deflation circuits with drawn coefficient. Oracle = "
         "dense reference simulation of the assembled gate list and dense Pauli matrices of solver.qubit_hamiltonian; "
-        "N/Sz/S^2 built from their definitions. Non-trivial = parameter vector has a non-zero entry and the prepared "
+        "N/Sz/S^2 built from their definitions. Part history: on ONE built solver a generated sequence of steps (energy_estimation at parameters from a small pool incl. the same array object, replacing qubit_hamiltonian, appending/removing deflation circuits, changing deflation_coeff, setting/clearing projective_circuit, operator_expectation in between); after every evaluation the value must equal the oracle of the solver's current configuration. Non-trivial = parameter vector has a non-zero entry and the prepared "
         "state is not a computational basis state. Distinct = distinct canonical JSON of the case.")
 ASSUMPTIONS = ["numpy/scipy dense linear algebra", "reference gate table and Pauli matrices in vlib/refsim.py, Fock-space ladder matrices in vlib/refops.py (self-tested)",
                "PySCF SCF supplies the molecular orbitals; the identities checked hold for any orbital set, so SCF quality is not trusted",
